@@ -36,7 +36,7 @@ class S(vlib.Spec):
                 "FieldWriteStructLike/Map/Set/List (header pre-count loops and filtering loops, Set_FieldMask/Pass_FieldMask), "
                 "StructLikeReadField, FieldReadStructLike/Map/Set/List (skip of filtered elements); generator/golang/thrift.go ZeroWriter "
                 "-> coq/Wire/Masked.v (hand-written over an abstract selector, instantiated with the field-mask library model coq/Mask/Trie.v "
-                "of property C14 and with residual path sets; after the repairs proposed_fixes/C13-1..5), on top of the standard codec "
+                "of property C14 and with residual path sets; after the repairs proposed_fixes/C13-1..6), on top of the standard codec "
                 "coq/Wire/Std.v (property C02); Wire/GenTables.v regenerated from generator/golang/types.go on every run")
     trusted_base = [
         "hand-written model coq/Wire/Masked.v (mirrors the with_field_mask branches of templates/struct.go and ZeroWriter) on top of Wire/Std.v, Wire/Value.v, Wire/Schema.v, Wire/Codec.v (C02's trusted base applies)",
